@@ -301,6 +301,37 @@ def self_reference_programs():
     return out
 
 
+# ---- values the Core generator holds constant: indexes that go below zero at run time (the semantics prescribes the
+# index-out-of-range failure at exactly that statement) and integers compared with literals beyond 32 bits (such a literal
+# is a bigint; the comparison is mathematical).  Fixed programs, Python statement of the expected lines.
+def boundary_value_programs():
+    """-> [(id, source, expected stdout lines, must_fail)]"""
+    out = []
+    for what, decl, elems in (("list", "xs: [str...] = [\"ann\", \"bob\", \"cy\"]", ["ann", "bob", "cy"]), ("str", "xs = \"abc\"", ["a", "b", "c"])):
+        out.append(("index-counts-down-below-zero/" + what, decl + "\ni = 2\nwhile i > -3 {\n  print xs[i]\n  i = i - 1\n}\nprint \"never\"\n", [elems[2], elems[1], elems[0]], True))
+        out.append(("index-computed-negative/" + what, decl + "\ni = 2\nprint xs[i - 2]\nprint xs[i - 3]\nprint \"never\"\n", [elems[0]], True))
+        out.append(("index-negative-in-function/" + what, decl + "\npick = fn(k: int) -> str {\n  return xs[k]\n}\nprint pick(1)\nprint pick(0 - 1)\nprint \"never\"\n", [elems[1]], True))
+        out.append(("index-at-length/" + what, decl + "\ni = 1\nwhile i < 9 {\n  print xs[i]\n  i = i + 1\n}\nprint \"never\"\n", [elems[1], elems[2]], True))
+        out.append(("index-negative-two/" + what, decl + "\nk = 0 - 2\nprint \"start\"\nprint xs[k]\nprint \"never\"\n", ["start"], True))
+    out.append(("index-write-negative/list", "ys: [int...] = [1, 2, 3]\nk = 0 - 1\nprint \"start\"\nys[k] = 9\nprint ys\n", ["start"], True))
+    big = [3000000000, -3000000000, 4294967301, 4294967291, 2147483648]
+    small = [5, -5, 2147483647, 0]
+    ops = [("<", lambda a, b: a < b), ("<=", lambda a, b: a <= b), (">", lambda a, b: a > b), (">=", lambda a, b: a >= b), ("==", lambda a, b: a == b), ("!=", lambda a, b: a != b)]
+    lit = lambda v: str(v) if v >= 0 else "(0 - %d)" % -v
+    for b in big:
+        src, exp = "b = %s\n" % (str(b) if b >= 0 else "0 - %d" % -b), []
+        for a in small:
+            src += "a = %s\n" % lit(a)
+            for sym, f in ops:
+                src += "print a %s b\nprint b %s a\n" % (sym, sym)
+                exp += [str(f(a, b)).lower(), str(f(b, a)).lower()]
+        out.append(("int-compared-with-a-literal-beyond-32-bits/%d" % b, src, exp, False))
+    out.append(("loop-bounded-by-a-big-literal", "limit = 3000000000\nn = 0\nwhile n < limit {\n  n = n + 1\n  if n == 9 {\n    break\n  }\n}\nprint n\n"
+                "f = fn(x: int) -> str {\n  if x <= 4000000000 {\n    return \"ok\"\n  }\n  return \"too big\"\n}\nprint f(5)\nprint f(2147483647)\n"
+                "c = 0\nfrom 0 to 3 {\n  if c < limit {\n    c = c + 1\n  }\n}\nprint c\n", ["9", "ok", "ok", "3"], False))
+    return out
+
+
 def run(ctx):
     ok = core.coq_props(ctx, "Props/C01.v")
     binary = core.build_repo()
@@ -438,6 +469,17 @@ def run(ctx):
                    % (sname, frame, kind, tname, "the program is refused" if refused else "printed %r (exit %d)" % (got, rc), exp, (out + err)[-300:].replace("\n", " ")),
                    {"program": src, "expected": exp, "observed": got, "rc": rc, "stderr": err[-600:], "how": "mscript run main.ms -q"})
     ctx.cov["self_reference_programs"] = len(srs)
+    bvs = boundary_value_programs()
+    for (cid, src, exp, must_fail), (rc, out, err) in zip(bvs, programs.pmap(one_src, [c[1] for c in bvs])):
+        got = out.split("\n")[:-1]
+        refused = rc != 0 and "Did not compile" in (out + err)
+        if not refused and got == exp and ((rc != 0) == must_fail):
+            continue
+        ctx.report("boundary-value:" + cid.split("/")[0], "%s: %s, the language defines %r and %s: %s"
+                   % (cid, "the program is refused" if refused else "printed %r (exit %d)" % (got[-6:], rc), exp[-6:], "a failure at that statement (non-zero exit)" if must_fail else "normal termination",
+                      (out + err)[-300:].replace("\n", " ") if rc != 0 else ""),
+                   {"program": src, "expected": exp, "expected_failure": must_fail, "observed": got, "rc": rc, "stderr": err[-600:], "how": "mscript run main.ms -q"})
+    ctx.cov["boundary_value_programs"] = len(bvs)
     ctx.cov["identifier_programs"] = n_names
     ctx.cov["string_literal_programs"] = n_strings
     cps = constant_programs(ctx.rng, 60 if ctx.quick() else 1500)
@@ -455,7 +497,7 @@ def run(ctx):
             ctx.report("semantics:constant-expression", "literal-only expressions in value positions: printed %r (exit %d), the language defines %r: %s" % (got, rc, exp, (out + err)[-200:].replace("\n", " ")),
                        {"program": src, "expected": exp, "observed": got, "rc": rc, "how": "mscript run main.ms -q"})
     ctx.cov["constant_expression_programs"] = n_const
-    ctx.cov["evaluations"] = st["programs"] + n_const + n_names + n_strings + n_heads + len(srs)
+    ctx.cov["evaluations"] = st["programs"] + n_const + n_names + n_strings + n_heads + len(srs) + len(bvs)
     ctx.cov["distinct_nontrivial"] = len(set(r["proj"]["files"]["main.ms"] for r in results if r["status"] == "ran" and r.get("steps", 0) > 30))
     ctx.cov["rule"] = ("programs = all statement skeletons to nesting depth %d (each as a function body called with 3 data variants and at module level) "
                        "+ random well-typed Core programs (depth <= 3 and <= 5); non-trivial = distinct program whose real run executes > 30 instructions; "
